@@ -27,9 +27,16 @@ func init() {
 		if sched.Active() == nil {
 			return false, false
 		}
+		if forced != nil {
+			return *forced, true
+		}
 		return sched.Choose(2, "rate.Limit") == 1, true
 	}
 }
+
+// forced, when set, fixes the limiter's answer (used by a scenario's setup to pre-queue a packet
+// without spending a deviation).
+var forced *bool
 
 // recSock records every Write call (assumed atomic, as a TCP/TLS socket serialises whole writes).
 type recSock struct {
@@ -176,6 +183,29 @@ func scenarios() map[string]*sched.Scenario {
 		Check: func(x *sched.Exec) (string, string) { return verdict(x, 2, 2) },
 	}
 
+	// 1b. the same with one packet of publisher a already queued when the threads start (a rate-limited
+	// write that happened earlier): windows of the flush are reachable with one deviation less
+	m["plain-prequeued"] = &sched.Scenario{
+		Name: "plain-prequeued", Files: []string{"internal/network/listener/conn.go"},
+		Body: func(s *sched.Sched) {
+			sock := &recSock{}
+			conn := listener.VerifNewConn(sock, 60)
+			yes := true
+			forced = &yes
+			publish(conn, 0, 0)
+			forced = nil
+			s.Go("P0", func() { publish(conn, 0, 1) })
+			s.Go("P1", func() { publish(conn, 1, 0); publish(conn, 1, 1) })
+			s.Go("F", func() { conn.Flush(); conn.Flush() })
+			s.AtEnd(func() {
+				conn.Flush()
+				ps, e := parseStream(sock.stream())
+				s.Obs("%s|%s|pending=%d", strings.Join(ps, " "), e, conn.Len())
+			})
+		},
+		Check: func(x *sched.Exec) (string, string) { return verdict(x, 2, 2) },
+	}
+
 	// 2. websocket transport: one message per Write
 	m["websocket"] = &sched.Scenario{
 		Name: "websocket", Files: []string{"internal/network/websocket/websocket.go"},
@@ -282,7 +312,7 @@ func verdict(x *sched.Exec, npub, nmsg int) (string, string) {
 	return "", ""
 }
 
-var order = []string{"plain", "websocket", "ws-over-buffered", "encode-pool"}
+var order = []string{"plain", "plain-prequeued", "websocket", "ws-over-buffered", "encode-pool"}
 
 func worker(c *core.Ctx, args []string) {
 	var bound, shard, n int
